@@ -1573,12 +1573,16 @@ def shallow_parse_input_query(query_text, input_iterator, tables_registry, query
             if JOIN in rb_actions:
                 raise RbqlParsingError('EXCEPT and JOIN are not allowed in the same query') # UT JSON
             output_header, select_expression = translate_except_expression(rb_actions[EXCEPT]['text'], input_variables_map, string_literals, input_header)
+            if output_header is not None and 'distinct_count' in rb_actions[SELECT]:
+                output_header = ['col1'] + output_header # The first output column of DISTINCT COUNT is the count
         else:
             select_expression, select_expression_for_ast = translate_select_expression(rb_actions[SELECT]['text'])
             select_expression = combine_string_literals(select_expression, string_literals)
             # We need to add string literals back in order to have relevant errors in case of exceptions during parsing
             combined_select_expression_for_ast = combine_string_literals(select_expression_for_ast, string_literals)
             column_infos = ast_parse_select_expression_to_column_infos(combined_select_expression_for_ast)
+            if 'distinct_count' in rb_actions[SELECT]:
+                column_infos = [None] + column_infos # The first output column of DISTINCT COUNT is the count: it gets its positional name
             output_header = select_output_header(input_header, join_header, column_infos)
         query_context.select_expression = select_expression
         query_context.writer.set_header(output_header)
